@@ -480,6 +480,13 @@ def job_tilted(cfg):
     res.functions |= {"_Elastic._Apply_basis_transformation", "Models._utils.Get_Pmat", "Models._utils.Apply_Pmat"}
 
     def make(dim, Ev, planeStress=True):
+        if law == "aniso6":
+            # a full 3-D (6, 6) Kelvin-Mandel stiffness handed to a 2-D model: the 2-D law is the plane-strain restriction of the ROTATED 3-D law
+            rng = np.random.default_rng(11)
+            Bm = np.round(rng.uniform(-1, 1, (6, 6)) * 8) / 8
+            C6c = Bm @ Bm.T * 20 + np.eye(6) * 100
+            C6m = np.array([[Ev * Fraction(float(C6c[i, j])) / 300 if not isinstance(Ev, float) else Ev * C6c[i, j] / 300 for j in range(6)] for i in range(6)], dtype=object if not isinstance(Ev, float) else float)
+            return Models.Elastic.Anisotropic(dim, C6m, useVoigtNotation=False, axis1=a1, axis2=a2)
         if law == "trans":
             return Models.Elastic.TransverselyIsotropic(dim, Ev, 120.0, 70.0, 0.2, 0.35, axis_l=a1, axis_t=a2, planeStress=planeStress)
         return Models.Elastic.Orthotropic(dim, Ev, 150.0, 100.0, 40.0, 50.0, 60.0, 0.2, 0.25, 0.3, axis_1=a1, axis_2=a2, planeStress=planeStress)
@@ -615,6 +622,8 @@ def main():
         for ps in (True, False):
             for ax in (tilted if tier == "thorough" else tilted[:1]):
                 configs.append({"kind": "tilted", "law": law, "planeStress": ps, "axes": ax})
+    for ax in (tilted if tier == "thorough" else tilted[:1]):
+        configs.append({"kind": "tilted", "law": "aniso6", "planeStress": False, "axes": ax})
     for law in ("trans", "ortho"):
         for ps in (True, False):
             configs.append({"kind": "inplane", "law": law, "planeStress": ps})
